@@ -1,12 +1,23 @@
 use crate::parser::model::Test;
 use crate::query::queryable::Queryable;
-use crate::query::state::State;
+use crate::query::state::{Data, Pointer, State};
 use crate::query::Query;
 
 impl Query for Test {
     fn process<'a, T: Queryable>(&self, state: State<'a, T>) -> State<'a, T> {
         match self {
-            Test::RelQuery(segments) => segments.process(state),
+            Test::RelQuery(segments) => {
+                // the current node must not look like an internal (boolean) evaluation
+                // to the selectors of the relative query, e.g. `@[?@.a]`
+                let State { data, root } = state;
+                let data = match data {
+                    Data::Ref(p) if p.is_internal() => {
+                        Data::Ref(Pointer::new(p.inner, "@".to_string()))
+                    }
+                    d => d,
+                };
+                segments.process(State::data(root, data))
+            }
             Test::AbsQuery(jquery) => jquery.process(state.shift_to_root()),
             Test::Function(tf) => tf.process(state),
         }
